@@ -77,11 +77,13 @@ finding(
     {"C13": [{"isrc": "def b(m=None, v: str=None):\n    return None\n\nclass Q(object):\n    v: int = 0.5\n", "osrc": "class J(object):\n    def az0(cls, y, ffyniy: str = 0.5):\n        return 1\n", "ip": ["Q.v", "attr", ["v", "int", "0.5"], {}], "op": ["J.az0.ffyniy", "arg", ["ffyniy", "str", "0.5"], {"idx": 1, "names": ["y", "ffyniy"], "hasdef": True, "first": "cls"}], "wrap": None, "eval": False}]},
 )
 
+finding("P54", ["C12"], "fixed", "sync creates a missing class file as `class <truth's name>` instead of --class-name; a missing function file raises TypeError", "b730503")
+
 # ------------------------------------------------------------------ open
-finding("P9", ["C12"], "open", "sync leaves function and argparse targets that differ from the truth untouched ('unchanged'); Class.method targets get a new top-level def appended on every run; a missing function file raises TypeError (repair would break 4 pinned test_conformance tests)")
+finding("P9", ["C12"], "open", "sync leaves function and argparse targets that differ from the truth untouched ('unchanged'); Class.method targets get a new top-level def appended on every run; (repair would break 4 pinned test_conformance tests)")
 finding("P12", ["C01", "C08"], "open", "string default '' is emitted as 'Defaults to' and lost; string defaults containing '.' are truncated")
 finding("P13", ["C02", "C03", "C04"], "open", "argparse: a required parameter without default re-parses with the zero value of its type; single-member Literal loses choices and comes back str; bool without default comes back Optional[bool]; types outside scalar/Optional/Literal/List fall back to str")
-finding("P14", ["C03"], "open", "`a: int` without default -> function hop (=None) -> class/pydantic hop gives Optional[int]")
+finding("P14", ["C03", "C12"], "open", "`a: int` without default -> function hop (=None) -> class/pydantic hop gives Optional[int]")
 finding("P15", ["C06"], "open", "Literal pattern 'x|yy' is unanchored: also accepts superstrings such as 'xx' and 'axb'")
 finding("P16", ["C16"], "open", "openapi_bulk: component key is table_name.title() ('Foo_Bar') while routes reference the class name ('FooBar'): dangling $ref")
 finding("P17d", ["C19"], "open", "gen --emit sqlalchemy* with a name template defines `Foo` but exports the templated name in __all__")
@@ -206,6 +208,12 @@ W.append(("P7", "C07", {"src": "class A(object):\n\n    def n(self, r, s=3, *arg
 W.append(("P26", "C07", {"src": "def f(\n    a=1,  # about a\n    b=2,\n):\n    \"\"\"\n    Does.\n\n    :param a: the a\n    :type a: ```int```\n    \"\"\"\n    return a\n", "feat": ["hazard:P26-comment-in-header"], "runs": [["rest", True, None]], "cli": False}))
 W.append(("P27", "C07", {"src": "def a(): return 0\n", "feat": ["hazard:P27-one-line-def"], "runs": [["rest", False, None]], "cli": False}))
 W.append(("P28", "C07", {"src": "def f(a=1):\n    r\"\"\"\n    Does.\n\n    :param a: the a\n    :type a: ```int```\n    \"\"\"\n    return a\n", "feat": ["hazard:P28-raw-docstring"], "runs": [["google", True, None]], "cli": False}))
+
+# ---- C12 witnesses
+W.append(('P9', "C12", {'irs': [{'name': 'Foo', 'doc': 'Some summary.', 'params': [['a', {'typ': 'int', 'doc': 'the a', 'default': 5}]], 'kinds': ['?'], 'returns': None}, {'name': 'Foo', 'doc': 'Some summary.', 'params': [['b', {'typ': 'str', 'doc': 'the b', 'default': 'x'}]], 'kinds': ['?'], 'returns': None}, {'name': 'Foo', 'doc': 'Some summary.', 'params': [['a', {'typ': 'int', 'doc': 'the a', 'default': 5}]], 'kinds': ['?'], 'returns': None}], 'same': False, 'truth': 'class', 'states': {'class': 'present', 'function': 'present', 'argparse_function': 'present'}, 'method': False, 'runs': 1, 'nww': False}))
+W.append(('P9', "C12", {'irs': [{'name': 'Foo', 'doc': 'Some summary.', 'params': [['a', {'typ': 'int', 'doc': 'the a', 'default': 5}]], 'kinds': ['?'], 'returns': None}, {'name': 'Foo', 'doc': 'Some summary.', 'params': [['a', {'typ': 'int', 'doc': 'the a', 'default': 5}]], 'kinds': ['?'], 'returns': None}, {'name': 'Foo', 'doc': 'Some summary.', 'params': [['b', {'typ': 'str', 'doc': 'the b', 'default': 'x'}]], 'kinds': ['?'], 'returns': None}], 'same': False, 'truth': 'class', 'states': {'class': 'present', 'function': 'present', 'argparse_function': 'present'}, 'method': False, 'runs': 1, 'nww': False}))
+W.append(('P9', "C12", {'irs': [{'name': 'Foo', 'doc': 'Some summary.', 'params': [['a', {'typ': 'int', 'doc': 'the a', 'default': 5}]], 'kinds': ['?'], 'returns': None}, {'name': 'Foo', 'doc': 'Some summary.', 'params': [['b', {'typ': 'str', 'doc': 'the b', 'default': 'x'}]], 'kinds': ['?'], 'returns': None}, {'name': 'Foo', 'doc': 'Some summary.', 'params': [['a', {'typ': 'int', 'doc': 'the a', 'default': 5}]], 'kinds': ['?'], 'returns': None}], 'same': False, 'truth': 'class', 'states': {'class': 'present', 'function': 'present', 'argparse_function': 'present'}, 'method': True, 'runs': 2, 'nww': False}))
+W.append(('P54', "C12", {'irs': [{'name': 'Foo', 'doc': 'Some summary.', 'params': [['a', {'typ': 'int', 'doc': 'the a', 'default': 5}]], 'kinds': ['?'], 'returns': None}, {'name': 'Foo', 'doc': 'Some summary.', 'params': [['a', {'typ': 'int', 'doc': 'the a', 'default': 5}]], 'kinds': ['?'], 'returns': None}, {'name': 'Foo', 'doc': 'Some summary.', 'params': [['a', {'typ': 'int', 'doc': 'the a', 'default': 5}]], 'kinds': ['?'], 'returns': None}], 'same': True, 'truth': 'argparse_function', 'states': {'class': 'missing', 'function': 'missing', 'argparse_function': 'present'}, 'method': False, 'runs': 2, 'nww': False}))
 
 
 def main():
